@@ -93,6 +93,7 @@ Lemma inv_set_tasks t0 v s : Inv t0 s -> Inv t0 (set_tasks v s). Proof. exact (f
 Lemma inv_set_nextg t0 v s : Inv t0 s -> Inv t0 (set_nextg v s). Proof. exact (fun H => H). Qed.
 Lemma inv_set_sched t0 v s : Inv t0 s -> Inv t0 (set_sched v s). Proof. exact (fun H => H). Qed.
 Lemma inv_set_ext t0 v s : Inv t0 s -> Inv t0 (set_ext v s). Proof. exact (fun H => H). Qed.
+Lemma inv_set_pend t0 v s : Inv t0 s -> Inv t0 (set_pend v s). Proof. exact (fun H => H). Qed.
 Lemma inv_set_bad t0 s : Inv t0 s -> Inv t0 (set_bad s). Proof. exact (fun H => H). Qed.
 Lemma inv_set_executing t0 v s : Inv t0 s -> Inv t0 (set_executing v s). Proof. exact (fun H => H). Qed.
 
@@ -219,19 +220,24 @@ Proof.
 Qed.
 
 Lemma do_xact_good t0 x s : Inv t0 s ->
-  Inv t0 (fst (do_xact ticker x s)) /\ mono s (fst (do_xact ticker x s)).
+  Inv t0 (fst (do_xact false ticker x s)) /\ mono s (fst (do_xact false ticker x s)).
 Proof.
   intros H. destruct x; simpl.
   - split; [exact H | red; auto].
   - split; [apply inv_fire; congruence || assumption | red; auto].
-  - destruct (req_stop_good t0 c s H) as (H1 & M1 & _).
-    destruct (req_stop ticker c s) as (s', raised). simpl in *.
-    destruct (t2_raise_good t0 c raised s' H1) as (H2 & R2).
-    split; [exact H2 | red; intros; rewrite R2; auto].
+  - destruct (late && running s && executing s) eqn:L.
+    + (* the pre-empted second-thread stop: same writes as an effective stop, in the order of the code *)
+      apply andb_true_iff in L. destruct L as (L & _). apply andb_true_iff in L. destruct L as (_ & R).
+      cbn [fst]. split; [|red; auto].
+      apply inv_set_pend. apply inv_logt; [exact I|]. apply inv_req_running; assumption.
+    + destruct (req_stop_good t0 c s H) as (H1 & M1 & _).
+      destruct (req_stop ticker c s) as (s', raised). simpl in *.
+      destruct (t2_raise_good t0 c raised s' H1) as (H2 & R2).
+      split; [exact H2 | red; intros; rewrite R2; auto].
 Qed.
 
 Lemma idle_wait_good t0 xs : forall s, Inv t0 s ->
-  Inv t0 (idle_wait ticker xs s) /\ mono s (idle_wait ticker xs s).
+  Inv t0 (idle_wait false ticker xs s) /\ mono s (idle_wait false ticker xs s).
 Proof.
   induction xs as [|x r IH]; intros s H; simpl.
   - assert (Inv t0 (logt (TWait true) (set_ext [] s))) as H0 by (apply inv_logt; simpl; auto).
@@ -241,12 +247,12 @@ Proof.
     + split; [exact H0 | red; auto].
   - assert (Inv t0 (logt (TWait true) (set_ext r s))) as H0 by (apply inv_logt; simpl; auto).
     destruct (do_xact_good t0 x _ H0) as (H1 & M1).
-    destruct (do_xact ticker x (logt (TWait true) (set_ext r s))) as (s', woke). simpl in *.
+    destruct (do_xact false ticker x (logt (TWait true) (set_ext r s))) as (s', woke). simpl in *.
     assert (mono s s') as M by (red; intros R; apply M1; exact R).
     destruct woke; [auto|]. destruct (IH s' H1) as (H2 & M2). split; [exact H2 | eauto using mono_trans].
 Qed.
 
-Lemma timed_wait_good t0 s : Inv t0 s -> Inv t0 (timed_wait ticker s) /\ mono s (timed_wait ticker s).
+Lemma timed_wait_good t0 s : Inv t0 s -> Inv t0 (timed_wait false ticker s) /\ mono s (timed_wait false ticker s).
 Proof.
   intros H. unfold timed_wait.
   assert (Inv t0 (logt (TWait false) s)) as H0 by (apply inv_logt; simpl; auto).
@@ -268,8 +274,8 @@ Proof.
 Qed.
 
 Lemma dispatch_good t0 s k h b : Inv t0 s -> batch s = S b -> heap s = k :: h ->
-  Inv t0 (dispatch P ticker k (set_heap h (set_batch b s))) /\
-  mono s (dispatch P ticker k (set_heap h (set_batch b s))).
+  Inv t0 (dispatch false P ticker k (set_heap h (set_batch b s))) /\
+  mono s (dispatch false P ticker k (set_heap h (set_batch b s))).
 Proof.
   intros H Eb Eh. pose proof (inv_pop t0 s k h b H Eb Eh) as H0.
   unfold dispatch. set (s0 := logt (TDisp k) (set_heap h (set_batch b s))) in *.
@@ -284,7 +290,7 @@ Proof.
     + apply W. apply timed_wait_good. exact H0.
 Qed.
 
-Lemma floop_good t0 n : forall s, Inv t0 s -> Inv t0 (floop P ticker n s) /\ mono s (floop P ticker n s).
+Lemma floop_good t0 n : forall s, Inv t0 s -> Inv t0 (floop false P ticker n s) /\ mono s (floop false P ticker n s).
 Proof.
   induction n as [|n IH]; intros s H; simpl.
   - destruct (batch s =? 0); split; auto using mono_refl. red; auto.
@@ -302,7 +308,7 @@ Proof.
   rewrite Eh in *. simpl in *. rewrite app_nil_r. auto.
 Qed.
 
-Lemma flush_good : good (flush P ticker).
+Lemma flush_good : good (flush false P ticker).
 Proof.
   intros t0 s H. unfold flush. destruct (batch s =? 0) eqn:E.
   - apply Nat.eqb_eq in E. pose proof (inv_load t0 s H E) as H1.
@@ -348,7 +354,7 @@ Proof.
     destruct (IH _ H1) as (H2 & M2). split; [exact H2 | eauto using mono_trans].
 Qed.
 
-Lemma tick_good : good (tick P ticker).
+Lemma tick_good : good (tick false P ticker).
 Proof.
   intros t0 s H. unfold tick.
   assert (Inv t0 (logt TTick s)) as H0 by (apply inv_logt; simpl; auto).
@@ -370,11 +376,11 @@ Qed.
 
 End Layers.
 
-Lemma tickd_good P d : good (tickd P d).
+Lemma tickd_good P d : good (tickd false P d).
 Proof. induction d; simpl; [exact good_set_bad | apply tick_good; assumption]. Qed.
 
 (* ---- the loops of run() *)
-Lemma main_loop_spec P d t0 fuel : forall s s', Inv t0 s -> main_loop P d fuel s = Some s' ->
+Lemma main_loop_spec P d t0 fuel : forall s s', Inv t0 s -> main_loop false P d fuel s = Some s' ->
   Inv t0 s' /\ running s' = false /\ qlen s' = 0.
 Proof.
   induction fuel as [|f IH]; intros s s' H E; simpl in E; [discriminate|].
@@ -384,12 +390,12 @@ Proof.
     apply Nat.ltb_ge in Q. split; [exact H|]. split; [exact R | lia].
 Qed.
 
-Lemma drain_spec P d t0 fuel : forall s s', Inv t0 s -> running s = false -> drain P d fuel s = Some s' ->
+Lemma drain_spec P d t0 fuel : forall s s', Inv t0 s -> running s = false -> drain false P d fuel s = Some s' ->
   Inv t0 s' /\ running s' = false /\ qlen s' = 0.
 Proof.
   induction fuel as [|f IH]; intros s s' H R E; simpl in E; [discriminate|].
   destruct (0 <? qlen s) eqn:C.
-  - destruct (flush_good P (tickd P d) (tickd_good P d) t0 s H) as (H1 & M1).
+  - destruct (flush_good P (tickd false P d) (tickd_good P d) t0 s H) as (H1 & M1).
     eapply IH; [exact H1 | apply M1; exact R | exact E].
   - inversion E; subst. apply Nat.ltb_ge in C. split; [exact H|]. split; [exact R | lia].
 Qed.
@@ -402,7 +408,7 @@ Proof.
 Qed.
 
 (* everything the property says about one run(), from one use of the invariant *)
-Theorem run_spec : forall P d fuel s0 s1 out, idle s0 -> run P d fuel s0 = Some (s1, out) ->
+Theorem run_spec : forall P d fuel s0 s1 out, idle s0 -> run false P d fuel s0 = Some (s1, out) ->
   exists delta, trace s1 = trace s0 ++ delta /\
     firedK delta = dispK delta /\
     cnt KStarted (firedK delta) = 1 /\ cnt KStopped (firedK delta) = 1 /\
@@ -412,14 +418,14 @@ Proof.
   intros P d fuel s0 s1 out Hi E. unfold run in E.
   pose proof (inv_start (trace s0) s0 Hi eq_refl) as H1.
   set (sa := fire KStarted (set_executing true (set_xcode None (set_running true s0)))) in *.
-  destruct (main_loop P d fuel sa) as [s2|] eqn:E2; [|discriminate].
+  destruct (main_loop false P d fuel sa) as [s2|] eqn:E2; [|discriminate].
   destruct (main_loop_spec P d _ _ _ _ H1 E2) as (H2 & R2 & Q2).
   pose proof (tickd_good P d) as G.
   destruct (G _ _ H2) as (H3a & M3a). destruct (G _ _ H3a) as (H3b & M3b).
   destruct (G _ _ H3b) as (H3c & M3c). destruct (G _ _ H3c) as (H3 & M3d).
-  set (s3 := tickd P d (tickd P d (tickd P d (tickd P d s2)))) in *.
+  set (s3 := tickd false P d (tickd false P d (tickd false P d (tickd false P d s2)))) in *.
   assert (running s3 = false) as R3 by (apply M3d, M3c, M3b, M3a; exact R2).
-  destruct (drain P d fuel s3) as [s4|] eqn:E4; [|discriminate].
+  destruct (drain false P d fuel s3) as [s4|] eqn:E4; [|discriminate].
   destruct (drain_spec P d _ _ _ _ H3 R3 E4) as (H4 & R4 & Q4).
   destruct (bad s4) eqn:B4; [discriminate|]. inversion E; subst. clear E.
   destruct H4 as (dl & Ht & Hb & Hf & Hs & Hr). rewrite R4 in Hr. destruct Hr as (Hst & c & r & Hq & Hx).
@@ -433,21 +439,21 @@ Proof.
 Qed.
 
 (* ---- the statements of Props/C08.v *)
-Lemma started_once : forall P d fuel s0 s1 out, idle s0 -> run P d fuel s0 = Some (s1, out) ->
+Lemma started_once : forall P d fuel s0 s1 out, idle s0 -> run false P d fuel s0 = Some (s1, out) ->
   exists delta, trace s1 = trace s0 ++ delta /\ cnt KStarted (dispK delta) = 1.
 Proof.
   intros P d fuel s0 s1 out Hi E. destruct (run_spec P d fuel s0 s1 out Hi E) as (dl & Ht & Hf & Hs & Hst & Hq & Hid).
   exists dl. rewrite <- Hf. auto.
 Qed.
 
-Lemma stopped_once : forall P d fuel s0 s1 out, idle s0 -> run P d fuel s0 = Some (s1, out) ->
+Lemma stopped_once : forall P d fuel s0 s1 out, idle s0 -> run false P d fuel s0 = Some (s1, out) ->
   exists delta, trace s1 = trace s0 ++ delta /\ cnt KStopped (dispK delta) = 1.
 Proof.
   intros P d fuel s0 s1 out Hi E. destruct (run_spec P d fuel s0 s1 out Hi E) as (dl & Ht & Hf & Hs & Hst & Hq & Hid).
   exists dl. rewrite <- Hf. auto.
 Qed.
 
-Lemma drained : forall P d fuel s0 s1 out, idle s0 -> run P d fuel s0 = Some (s1, out) ->
+Lemma drained : forall P d fuel s0 s1 out, idle s0 -> run false P d fuel s0 = Some (s1, out) ->
   fifo s1 = [] /\ heap s1 = [] /\ batch s1 = 0 /\
   exists delta, trace s1 = trace s0 ++ delta /\ dispK delta = firedK delta.
 Proof.
@@ -455,7 +461,7 @@ Proof.
   destruct Hid as (_ & _ & F & Hh & B & _). repeat split; auto. exists dl. auto.
 Qed.
 
-Lemma exit_code : forall P d fuel s0 s1 out, idle s0 -> run P d fuel s0 = Some (s1, out) ->
+Lemma exit_code : forall P d fuel s0 s1 out, idle s0 -> run false P d fuel s0 = Some (s1, out) ->
   exists delta r, trace s1 = trace s0 ++ delta /\ reqs delta = out :: r.
 Proof.
   intros P d fuel s0 s1 out Hi E. destruct (run_spec P d fuel s0 s1 out Hi E) as (dl & Ht & Hf & Hs & Hst & (r & Hq) & Hid).
@@ -465,8 +471,27 @@ Qed.
 Lemma idle_stop : forall (tk : st -> st) c s, running s = false -> stop tk c s = (s, false).
 Proof. intros tk c s H. unfold stop. rewrite H. reflexivity. Qed.
 
-Lemma rerun : forall P d fuel s0 s1 out, idle s0 -> run P d fuel s0 = Some (s1, out) -> idle s1.
+Lemma rerun : forall P d fuel s0 s1 out, idle s0 -> run false P d fuel s0 = Some (s1, out) -> idle s1.
 Proof.
   intros P d fuel s0 s1 out Hi E. destruct (run_spec P d fuel s0 s1 out Hi E) as (dl & Ht & Hf & Hs & Hst & Hq & Hid).
   exact Hid.
 Qed.
+
+(* ---- the order `_running = False; fire(stopped); _exit_code = code` is refuted: a second thread calls
+   stop(3) while the loop idles and is pre-empted right after the wake-up; run() returns normally *)
+Lemma exit_code_legacy_refuted : exists P d fuel s0 s1 delta r c,
+  idle s0 /\ run true P d fuel s0 = Some (s1, None) /\
+  trace s1 = trace s0 ++ delta /\ reqs delta = Some c :: r.
+Proof.
+  exists (prog_of []), 3, 50, (init [] [XStop true (Some 3%Z)]).
+  eexists. eexists. eexists. eexists.
+  split; [repeat split|].
+  split; [vm_compute; reflexivity|].
+  split; [simpl; reflexivity|].
+  vm_compute. reflexivity.
+Qed.
+
+(* the same schedule with the order of the code: the code reaches the caller *)
+Lemma exit_code_late_example :
+  option_map snd (run false (prog_of []) 3 50 (init [] [XStop true (Some 3%Z)])) = Some (Some 3%Z).
+Proof. vm_compute. reflexivity. Qed.
